@@ -1,4 +1,5 @@
 import SlugModel.Lemmas.TrEq_excludes
+import SlugModel.Lemmas.TrEq_readRules
 /-!
 # C03 (tie by translation)
 
@@ -11,6 +12,11 @@ assignments and the `dominating` flag; `(*rule).match` — pattern compilation a
 the model's `ruleMatches` (Ignore.lean: `compileRx`, `matchT`), tied by the `ignore` lane.  The result
 struct is read as the pair (Excluded, Dominating), the error result as a Boolean (never set here: the
 error of an invalid pattern is outside the modelled fragment).
+
+`readRules` is translated with its line loop (the `continue` cases, the `!` prefix, the backwards loop that sets
+`negationsAfter` with its `break`, the trailing-`/`, leading-`/` and implicit-`**/` rewriting, the `append`);
+the `io.Reader` is read as the list of lines `bufio.Scanner` delivers (the model's `scanLines`, tied by the
+`ignore` lane), the scanner's error is not modelled (the error result is never set).
 -/
 namespace Slug
 
@@ -19,5 +25,12 @@ namespace Slug
 theorem C03_tie_excludes (rules : List Rule) (path : Str) :
     Gen.excludes rules path = (excludes rules path, false) :=
   gen_excludes rules path
+
+/-- **C03_tie_readRules.** The model's `readRules` (the default rules, then one rule per line that is neither
+blank nor a comment nor a lone `!`, with the `negationsAfter` marks) is the translated `readRules`
+(internal/ignorefiles/terraformignore.go) on the lines of the content, for every content. -/
+theorem C03_tie_readRules (content : Str) :
+    Gen.readRules (scanLines content) = (readRules content, false) :=
+  gen_readRules content
 
 end Slug
